@@ -1,6 +1,6 @@
 (* C01 property theorems.  Only statements closed by [exact]; each followed by Print Assumptions.
    All are about the definitions of C01/Model.v that C01/Harness.v evaluates against the implementation. *)
-From Miller Require Import Base.Bytes Base.Record C01.Model C01.ProofsUtil C01.ProofsTsv C01.ProofsDkvp C01.ProofsCsv C01.ProofsCsv2 C01.ModelJson C01.ProofsJson C01.ModelXtab C01.ProofsXtab C01.ModelLite C01.ProofsLite C01.ModelPprint C01.ProofsPprint C01.ProofsBarred C01.ModelMd C01.ProofsMd.
+From Miller Require Import Base.Bytes Base.Record C01.Model C01.ProofsUtil C01.ProofsTsv C01.ProofsDkvp C01.ProofsCsv C01.ProofsCsv2 C01.ModelJson C01.ProofsJson C01.ModelXtab C01.ProofsXtab C01.ModelLite C01.ProofsLite C01.ModelPprint C01.ProofsPprint C01.ProofsBarred C01.ModelMd C01.ProofsMd C01.ModelDkvpx C01.ProofsDkvpx C01.ModelIrs C01.ProofsIrs.
 Open Scope char_scope.
 
 (* ---- TSV ---- *)
@@ -178,6 +178,12 @@ Theorem C01_xtab_roundtrip :
 Proof. exact xtab_roundtrip. Qed.
 Print Assumptions C01_xtab_roundtrip.
 
+(* --xvright (values right-aligned with spaces) with the default IPS/OPS, the space: the padding is more copies of the IPS *)
+Theorem C01_xtab_xvright_roundtrip :
+  forall w dedupe recs, wf_xtab SP recs = true -> read_xtab [SP] dedupe (write_xtab w [SP] true recs) = Some recs.
+Proof. exact xtab_xvright_roundtrip. Qed.
+Print Assumptions C01_xtab_xvright_roundtrip.
+
 (* ---- csvlite ---- *)
 (* heterogeneous streams included: a change of keys writes a blank line and a new header, which the reader takes as a
    schema change.  One-byte OFS = IFS = c (not CR, LF, 0xEF); records non-empty with unique keys; cells free of c, CR, LF
@@ -238,20 +244,22 @@ Theorem C01_pprint_barred_roundtrip :
 Proof. exact pprint_barred_roundtrip. Qed.
 Print Assumptions C01_pprint_barred_roundtrip.
 
-(* ---- Markdown ---- (model tied by correspondence; the general round trip is not proved yet -- these are today's defects) *)
-(* FULL statement (not proved): forall w aligned crlf dedupe ragged recs, wf_markdown recs = true ->
-     read_markdown false dedupe ragged (write_markdown w aligned crlf recs) = Some recs *)
-Theorem C01_markdown_escaped_bar_refuted :
-  exists recs, forallb (fun r => negb (is_nil r) && nodupb (keys r)) recs = true
-    /\ read_markdown false true false (write_markdown (@List.length ascii) false false recs) <> Some recs.
-Proof. exact markdown_escaped_bar_refuted. Qed.
-Print Assumptions C01_markdown_escaped_bar_refuted.
+(* ---- Markdown ---- *)
+(* the streaming writer (--omd) and the --omd-aligned writer (for EVERY display-width function w) read back with --imd, any dedupe / ragged setting, LF or CRLF, heterogeneity included (a change
+   of keys writes a blank line and a new header; the reader takes only the second line of a block for the separator line).
+   Domain (wf_markdown, boolean): records non-empty with unique keys; cells free of LF and unchanged by strings.TrimSpace;
+   keys free of "|" (keys are not escaped) and "," and not the single key "".  VALUES may contain "|" (written "\|" and
+   unescaped by the reader), backslashes, rows of dashes or empty cells -- the two former findings are inside the domain *)
+Theorem C01_markdown_roundtrip :
+  forall w aligned crlf dedupe ragged recs, wf_markdown recs = true ->
+  read_markdown false dedupe ragged (write_markdown w aligned crlf recs) = Some recs.
+Proof. exact markdown_roundtrip. Qed.
+Print Assumptions C01_markdown_roundtrip.
 
-Theorem C01_markdown_dash_row_refuted :
-  exists recs, forallb (fun r => negb (is_nil r) && nodupb (keys r)) recs = true
-    /\ read_markdown false true false (write_markdown (@List.length ascii) false false recs) <> Some recs.
-Proof. exact markdown_dash_row_refuted. Qed.
-Print Assumptions C01_markdown_dash_row_refuted.
+Example C01_nonvacuous_markdown :
+  wf_markdown [[(B "a", B "x|y"); (B "b c", B "\|"); (B "", B "")]; [(B "a", B "-"); (B "b c", B ""); (B "", B "---")];
+               [(B "z", bs [195;169;13;65;92]%N)]; [(B "a", B "| - |"); (B "b c", B ":--"); (B "", B "x  y")]] = true.
+Proof. vm_compute. reflexivity. Qed.
 
 Example C01_nonvacuous_pprint :
   wf_pprint false [[(B "a", B "1,2"); (B "b-c", B ""); (B "k", bs [195;169;13;65]%N)]; [(B "a", B "--"); (B "b-c", B "x"); (B "k", B "-x")];
@@ -259,4 +267,58 @@ Example C01_nonvacuous_pprint :
   /\ wf_pprint true [[(B "a", bs [65;13]%N)]] = true
   /\ wf_barred [[(B "", B "x  y"); (B "a b", B ""); (B "k", B "-"); (B "c", bs [195;169;13;65]%N)]; [(B "", B "1"); (B "a b", B "2"); (B "k", B "3"); (B "c", B "")];
                 [(B "z", bs [194]%N)]] = true.
+Proof. vm_compute. repeat split; reflexivity. Qed.
+
+(* ---- DKVPX ---- (pkg/dkvpx: DKVP with CSV-style quoting) *)
+(* writer then reader is the identity for one-byte IFS/IPS below 0x80 (different from each other and from quote, CR, LF), LF or
+   CRLF line ends, any dedupe setting: records (EMPTY ones included) with unique non-empty keys, keys and values of ANY bytes --
+   separators, quotes, LF, lone CR, empty lines inside a cell, leading/trailing spaces, invalid UTF-8 -- except the sequence
+   CR LF inside a cell (refuted below) and a first key starting with byte 0xEF (BOM).  The reader model is the repaired
+   reader (/repo ec53d6cbc: a newline inside quotes with nothing before it on its line used to be dropped) *)
+Theorem C01_dkvpx_roundtrip :
+  forall comma eq crlf dedupe recs, wf_dkvpx comma eq recs = true ->
+  read_dkvpx comma eq dedupe (write_dkvpx [comma] [eq] crlf recs) = recs.
+Proof. exact dkvpx_roundtrip. Qed.
+Print Assumptions C01_dkvpx_roundtrip.
+
+Theorem C01_dkvpx_crlf_in_cell_refuted :
+  exists recs, forallb (fun r => nodupb (keys r)) recs = true
+    /\ read_dkvpx "," "=" true (write_dkvpx [","] ["="] false recs) <> recs.
+Proof. exact dkvpx_crlf_in_cell_refuted. Qed.
+Print Assumptions C01_dkvpx_crlf_in_cell_refuted.
+
+Example C01_nonvacuous_dkvpx :
+  wf_dkvpx "," "=" [[(B "a,b", B "x=""y"""); (B "k", bs [10;10;13;65;10]%N); (B " c ", B "")]; []; [(B "=", bs [255;44;13]%N)]] = true
+  /\ wf_dkvpx ";" ":" [[(B "a", B "1;2:3")]] = true.
+Proof. vm_compute. split; reflexivity. Qed.
+
+(* ---- custom record separators (--ors X written, --irs X read; single- and multi-character line readers) ---- *)
+(* the line reader inverts "every line followed by the separator": any non-empty separator (the last byte may occur earlier in
+   it, as in ";;" -- /repo 5d07e29dc), any number of lines, empty lines included; sufficient condition: no byte of the
+   separator inside a line *)
+Theorem C01_custom_irs_lines :
+  forall irs ls, irs <> [] -> forallb (freeof irs) ls = true -> lines_irs irs (unlines irs ls) = ls.
+Proof. exact lines_irs_unlines. Qed.
+Print Assumptions C01_custom_irs_lines.
+
+(* DKVP and NIDX with a custom record separator: the domains of C01_dkvp_roundtrip / C01_nidx_roundtrip (any IFS/IPS) and
+   no byte of the record separator in any written line *)
+Theorem C01_dkvp_custom_irs_roundtrip :
+  forall irs ifs ips dedupe recs, irs <> [] -> default_irs irs = false -> wf_dkvp ifs ips true recs = true ->
+  forallb (freeof irs) (map (dkvp_line ifs ips) recs) = true ->
+  read_dkvp_irs irs ifs ips false dedupe (write_dkvp_ors ifs ips irs recs) = recs.
+Proof. exact dkvp_irs_roundtrip. Qed.
+Print Assumptions C01_dkvp_custom_irs_roundtrip.
+
+Theorem C01_nidx_custom_irs_roundtrip :
+  forall irs ifs recs, irs <> [] -> default_irs irs = false -> wf_nidx ifs true recs = true ->
+  forallb (freeof irs) (map (fun r => join ifs (values r)) recs) = true ->
+  read_nidx_irs irs ifs true (write_nidx_ors ifs irs recs) = recs.
+Proof. exact nidx_irs_roundtrip. Qed.
+Print Assumptions C01_nidx_custom_irs_roundtrip.
+
+Example C01_nonvacuous_custom_irs :
+  default_irs (B ";;") = false /\ wf_dkvp (B ",") (B "=") true [[(B "a", B "x y"); (B "b", B "")]; []; [(B "c", bs [13;65]%N)]] = true
+  /\ forallb (freeof (B ";;")) (map (dkvp_line (B ",") (B "=")) [[(B "a", B "x y"); (B "b", B "")]; []; [(B "c", bs [13;65]%N)]]) = true
+  /\ wf_nidx (B " ") true [[(B "1", B "p"); (B "2", B "q")]] = true.
 Proof. vm_compute. repeat split; reflexivity. Qed.
